@@ -2,6 +2,8 @@ import Vata.Parse
 import Vata.Generated.Tables
 import Vata.NfaOps
 import Vata.NfaIncl
+import Vata.NfaInclSim
+import Vata.Properties.C09_Sim
 /-! # Driver side of NFA histories (`nfah`): properties C09, C10, C11 (word automata) -/
 open Vata
 open Vata.W (NFA acceptsW)
@@ -171,6 +173,28 @@ partial def go (steps : List String) (res : List String) (k : Nat) (pool : List 
         | none => f := f ++ [s!"mismatch step {k} {n}-model returned none (fuel / certificate)"]
       let eA ← getE (emptyW A FUEL) "fuel"
       tags := tags ++ [s!"incl={bchar exp}", s!"emptyA={bchar eA}"]
+    | "inclsim" =>
+      -- the two selections that take a simulation relation (`ANTICHAINS_SIM`, `CONGR_DEPTH_SIM`; models and theorems:
+      -- `Vata/NfaInclSim.lean`, `C09_antichain_sim_exact`, `C09_congr_sim_exploration_exact`)
+      let A ← ent 1
+      let B ← ent 2
+      let R : Rel ← getE (parts[3]? >>= (fun t => if t == "-" then some [] else
+        (t.splitOn ",").mapM (fun e => match e.splitOn "." with
+          | [a, b] => do pure ((← a.toNat?), (← b.toNat?))
+          | _ => none))) "bad relation"
+      if !((nfaStates A).all (fun q => !(nfaStates B).contains q)) then throw "precondition: inclsim operands share states"
+      if !isNfaSimPreB (nfaUnionDisjoint A B) R then throw "precondition: relation is not a simulation preorder on the union"
+      let v ← getE (kv res s!"vs{k}") "missing sim verdict vector"
+      let exp ← getE (inclW A B FUEL) "fuel"
+      if v.length != 2 then throw "bad sim verdict vector"
+      for (c, n, mo) in [(v.toList[0]!, "antichains+sim", nfaInclACSimRaw A B R 100000), (v.toList[1]!, "congr-depth+sim", nfaInclCongrSimRaw A B R 100000)] do
+        if c == 'T' then f := f ++ [s!"violation step {k} incl[{n}] did not return within its budget"]
+        else if c != bchar exp then f := f ++ [s!"violation step {k} incl[{n}]={c} reference={bchar exp}"]
+        match mo with
+        | some b =>
+          if bchar b != c then f := f ++ [s!"mismatch step {k} {n}-model verdict {bchar b} implementation {c}"]
+        | none => f := f ++ [s!"mismatch step {k} {n}-model returned none (fuel)"]
+      tags := tags ++ [s!"inclsim={bchar exp}", s!"simpairs={if R.length ≤ (nfaStates A).length + (nfaStates B).length then "id" else "more"}"]
     | "inclall" =>
       let A ← ent 1
       let B ← ent 2
@@ -184,6 +208,11 @@ partial def go (steps : List String) (res : List String) (k : Nat) (pool : List 
             f := f ++ [s!"violation step {k} implemented option word {i} answered {c}"]
           else if [0, 1, 33, 65, 97].contains i && c != bchar exp then
             f := f ++ [s!"violation step {k} incl[word {i}]={c} reference={bchar exp}"]
+          if [65, 97].contains i then
+            -- the equivalence functor as coded on (A ⊎ B, B) (`checkNfaInclEquiv`, `C09_equiv_functor_exact/_total`)
+            match Vata.Props.C09Sel.model i A B [] (Vata.Props.C09Sel.bound i A B + 1) with
+            | some b => if bchar b != c then f := f ++ [s!"mismatch step {k} equivalence-functor model (word {i}) {bchar b} implementation {c}"]
+            | none => f := f ++ [s!"mismatch step {k} equivalence-functor model (word {i}) returned none above its proved bound"]
         else if c != 'N' then
           f := f ++ [s!"violation step {k} unimplemented option word {i} answered {c} instead of NotImplementedException"]
       tags := tags ++ ["inclall=1"]
